@@ -38,6 +38,30 @@ def fval(x):
     return 7 * (x - 1)
 
 
+def shaped(case, x):
+    """what the run-function returns for configuration x: the value fval(x) in one of several legal shapes"""
+    v, k = fval(x), case.get("vshape", "int")
+    if k == "named":      # a dict of named results that happens to have an "output" entry (no metadata): handed back as it is
+        return {"output": v, "aux": [x, "a"]}
+    if k == "envelope":   # the {"output", "metadata"} envelope of @profile: the job's output is the inner value
+        return {"output": v, "metadata": {"m": x}}
+    if k == "tuple":
+        return (v, 1)
+    if k == "str":
+        return "v%d" % v
+    return v
+
+
+def unshaped(case, x, out):
+    """the integer value when `out` is exactly what shaped(case, x) should have become, otherwise a sentinel"""
+    v, k = fval(x), case.get("vshape", "int")
+    exp = {"named": {"output": v, "aux": [x, "a"]}, "envelope": v, "tuple": (v, 1), "str": "v%d" % v}.get(k, v)
+    if k == "tuple" and isinstance(out, list):
+        out = tuple(out)
+    same = type(out) is type(exp) and out == exp
+    return v if same else -(10 ** 9)
+
+
 # ------------------------------------------------------------------ serial backend with a conductor
 def run_serial(case):
     from deephyper.evaluator import SerialEvaluator
@@ -50,7 +74,7 @@ def run_serial(case):
         ev = events.setdefault(jid, asyncio.Event())
         await ev.wait()
         returned.append(jid)
-        return fval(job.parameters["x"])
+        return shaped(case, job.parameters["x"])
 
     evaluator = SerialEvaluator(run_fn, num_workers=case["workers"])
     return drive(evaluator, case, events=events, returned=returned)
@@ -137,8 +161,7 @@ def drive(evaluator, case, events=None, returned=None):
                 r = []
                 for job in res:
                     jid = int(job.id.split(".")[1])
-                    out = job.output
-                    r.append([jid, int(job.args["x"]), int(out) if isinstance(out, int) else -(10 ** 9)])
+                    r.append([jid, int(job.args["x"]), unshaped(case, int(job.args["x"]), job.output)])
                     if jid in inflight:
                         inflight.remove(jid)
                 if len(r) >= 2:
@@ -183,7 +206,7 @@ def drive(evaluator, case, events=None, returned=None):
                         jid = int(row["job_id"])
                         done = row["job_status"] == "DONE"
                         rows.append([jid, done])
-                        if done:
+                        if done and case.get("vshape", "int") == "int":
                             pay.append([jid, int(row["p:x"]), int(row["o:"]) if row.get("o:", "").lstrip("-").isdigit() else -(10 ** 9)])
                     rows_seen = len(allrows)
                 ev = [3, rows, pay]
@@ -242,7 +265,7 @@ def check_serial(case):
 # ------------------------------------------------------------------ thread / process / loky backends (sleep-based)
 def _sleepy(job):
     time.sleep(job.parameters["d"] / 1000.0)
-    return fval(job.parameters["x"])
+    return shaped({"vshape": job.parameters.get("s", "int")}, job.parameters["x"])
 
 
 def run_backend(case):
@@ -262,7 +285,7 @@ def run_backend(case):
         def submit(self, args):
             full = []
             for a in args:
-                full.append({"x": a["x"], "d": durs[self.n % len(durs)]})
+                full.append({"x": a["x"], "d": durs[self.n % len(durs)], "s": case.get("vshape", "int")})
                 self.n += 1
             return self.e.submit(full)
 
@@ -362,6 +385,9 @@ def gen_close_reuse(rng, workers):
     return ops
 
 
+VSHAPES = ["int", "int", "int", "named", "envelope", "tuple", "str"]
+
+
 def gen_serial(count):
     def gen(rng, tier):
         # the shortest history that needs a usable evaluator after close comes first
@@ -375,9 +401,9 @@ def gen_serial(count):
         for i in range(n):
             if i % 5 == 4:
                 w = rng.choice([2, 2, 3, 4])
-                yield dict(workers=w, ops=gen_close_reuse(rng, w), alias=rng.random() < 0.5)
+                yield dict(workers=w, ops=gen_close_reuse(rng, w), alias=rng.random() < 0.5, vshape=rng.choice(VSHAPES))
             else:
-                yield dict(workers=rng.choice([1, 1, 2, 3, 4]), ops=gen_history(rng, 6 if tier == "search" else 12), alias=rng.random() < 0.5)
+                yield dict(workers=rng.choice([1, 1, 2, 3, 4]), ops=gen_history(rng, 6 if tier == "search" else 12), alias=rng.random() < 0.5, vshape=rng.choice(VSHAPES))
     return gen
 
 
@@ -386,7 +412,7 @@ def gen_backend(count, backends):
         for i in range(count):
             b = backends[i % len(backends)]
             ops = gen_history(rng, 7, close_p=0.1)
-            yield dict(backend=b, workers=rng.choice([1, 2, 4]), ops=ops, durs=[rng.choice([1, 5, 10, 20, 40]) for _ in range(8)], alias=rng.random() < 0.5)
+            yield dict(backend=b, workers=rng.choice([1, 2, 4]), ops=ops, durs=[rng.choice([1, 5, 10, 20, 40]) for _ in range(8)], alias=rng.random() < 0.5, vshape=rng.choice(VSHAPES))
     return gen
 
 
